@@ -2,6 +2,7 @@ import LzmaVerif.Proofs.TruncRc
 import LzmaVerif.Proofs.TruncLzma
 import LzmaVerif.Proofs.TruncLzip
 import LzmaVerif.Proofs.TruncXz
+import LzmaVerif.Proofs.TruncLzma2
 import LzmaVerif.Proofs.Xz
 /-!
 # C05 — a truncated stream is never accepted (theorems about the models)
@@ -15,8 +16,12 @@ Level 2 (`Proofs/TruncLzma.lean`) raw LZMA: `Lzma.decRun_trunc`, `Lzma.rc_trunc`
 Level 3 (`Proofs/TruncLzip.lean`) LZIP: `LzipFile.lzip_trunc` (error unless cut exactly on a member boundary),
                                   `lzip_trunc_not_full`, `lzip_trunc_inside`,
                                   `lzip_trunc_single`; `payloadTrunc_of_payloadOk` (no extra codec hypothesis needed)
-Level 4 (`Proofs/TruncXz.lean`)   XZ single stream: `Xz.xz_trunc`, `xz_trunc_not_ok`, `xz_trunc_blocks` (below);
-                                  codec hypothesis `Xz.PayloadTrunc`, satisfiable: `payloadTrunc_stored`
+Level 4 (`Proofs/TruncXz.lean`)   XZ single stream: `Xz.xz_trunc`, `xz_trunc_not_ok`, `xz_trunc_blocks` (below) with the
+                                  codec hypothesis `Xz.PayloadTrunc` (satisfiable: `payloadTrunc_stored`)
+LZMA2 (`Proofs/TruncLzma2.lean`)  `Lzma2.chunkLoop_ext`, `Lzma2.decode_trunc` (decoder only), `Lzma2.lzma2_trunc`,
+                                  `payloadTrunc_of_chunksOk`, `payloadTrunc_of_payloadOk`: `PayloadTrunc` is DERIVED
+                                  from `PayloadOk`, hence `Xz.xz_trunc_ok`, `xz_trunc_blocks_ok`, `xz_trunc_chunks`
+                                  (below) need no truncation hypothesis at all
 -/
 namespace LzmaVerif.Xz
 open LzmaVerif Lzma Checks
@@ -31,6 +36,40 @@ theorem xz_trunc_blocks (c : Check) (fs : List Filter) (hfs : FiltersOk fs)
     (∃ e, Xz.decode false ((streamBytes c fs blocks).take k) cap = .err e) ∨
     Xz.decode false ((streamBytes c fs blocks).take k) cap = .capped :=
   xz_trunc ⟨c, fs, blocks⟩ ⟨Strm.ok_of c fs blocks hfs hb hsz, ht⟩ cap hcap k hk
+
+/-- **A truncated XZ stream is never accepted — no codec truncation hypothesis.**  For a single well-formed stream
+    (`Strm.Ok`, exactly the hypothesis of the round-trip theorems) every proper prefix is rejected. -/
+theorem xz_trunc_ok (s : Strm) (hs : s.Ok) (cap : Nat) (hcap : s.data.length ≤ cap) (k : Nat)
+    (hk : k < s.bytes.length) :
+    (∃ e, Xz.decode false (s.bytes.take k) cap = .err e) ∨ Xz.decode false (s.bytes.take k) cap = .capped :=
+  xz_trunc s ⟨hs, fun b hb => Lzma2.payloadTrunc_of_payloadOk (hs.2.1 b hb).1⟩ cap hcap k hk
+
+/-- the same in the user-level form of `xz_roundtrip_blocks` (identical hypotheses) -/
+theorem xz_trunc_blocks_ok (c : Check) (fs : List Filter) (hfs : FiltersOk fs)
+    (blocks : List (List Nat × List Nat))
+    (hb : ∀ b ∈ blocks, PayloadOk (readerDict fs) b.1 (applyFilters fs b.2) ∧ unfilter fs (applyFilters fs b.2) = b.2)
+    (hsz : SizesOk c fs blocks) (cap : Nat) (hcap : ((blocks.map (·.2)).flatten).length ≤ cap)
+    (k : Nat) (hk : k < (streamBytes c fs blocks).length) :
+    (∃ e, Xz.decode false ((streamBytes c fs blocks).take k) cap = .err e) ∨
+    Xz.decode false ((streamBytes c fs blocks).take k) cap = .capped :=
+  xz_trunc_blocks c fs hfs blocks hb (fun b hbm => Lzma2.payloadTrunc_of_payloadOk (hb b hbm).1) hsz cap hcap k hk
+
+/-- … and with the payloads given as writer-model LZMA2 streams of valid event sequences (`ChunksOk`, the hypothesis
+    of `lzma2_roundtrip`): nothing about the codec is assumed -/
+theorem xz_trunc_chunks (c : Check) (fs : List Filter) (hfs : FiltersOk fs)
+    (blocks : List (List Nat × List Nat))
+    (hb : ∀ b ∈ blocks, unfilter fs (applyFilters fs b.2) = b.2 ∧
+      ∃ pb chunks, pb ≤ 224 ∧ (paramsOfProps pb).lc + (paramsOfProps pb).lp ≤ 4 ∧
+        Lzma2.ChunksOk pb chunks (Lzma2.initW (readerDict fs) #[] pb) (applyFilters fs b.2) ∧
+        Lzma2.encodeChunks pb chunks (Lzma2.initW (readerDict fs) #[] pb) [] = some b.1)
+    (hsz : SizesOk c fs blocks) (cap : Nat) (hcap : ((blocks.map (·.2)).flatten).length ≤ cap)
+    (k : Nat) (hk : k < (streamBytes c fs blocks).length) :
+    (∃ e, Xz.decode false ((streamBytes c fs blocks).take k) cap = .err e) ∨
+    Xz.decode false ((streamBytes c fs blocks).take k) cap = .capped := by
+  refine xz_trunc_blocks_ok c fs hfs blocks ?_ hsz cap hcap k hk
+  intro b hbm
+  obtain ⟨hu, pb, chunks, hpb, hlclp, hok, henc⟩ := hb b hbm
+  exact ⟨Lzma2.payloadOk_of_chunksOk _ pb hpb hlclp chunks _ _ hok henc, hu⟩
 
 end LzmaVerif.Xz
 
@@ -164,7 +203,7 @@ example (x : Nat) (k : Nat) (hk : k < (streamBytes .crc64 [.lzma2 4096] [([1, 0,
     have hp := payloadTrunc_stored (readerDict [.lzma2 4096]) [x] (by simp) (by simp)
     simpa using hp
   have hsz : SizesOk .crc64 [.lzma2 4096] [([1, 0, 0, x, 0], [x])] := by
-    refine ⟨by simp, ?_⟩
+    refine sizesOk_of_blocks _ _ _ ⟨by simp, ?_⟩ (by simp)
     intro b hb
     rw [List.mem_singleton] at hb
     subst hb
@@ -174,7 +213,44 @@ example (x : Nat) (k : Nat) (hk : k < (streamBytes .crc64 [.lzma2 4096] [([1, 0,
     omega
   exact xz_trunc_blocks .crc64 [.lzma2 4096] (by decide) _ hb ht hsz 1 (by simp) k hk
 
-/-- the stream of the previous example is 60 bytes long for `x < 256`… here: `x = 65` -/
+/-- the 60-byte LZMA2 stream of `Lzma2.Example.exChunks` (six events: LZMA chunks with every header form, stored
+    chunks, independent restarts), computed by the model writer (kernel evaluation) -/
+def exPayload : List Nat :=
+  [224, 0, 5, 0, 7, 93, 0, 32, 144, 158, 4, 0, 0, 0, 128, 0, 1, 0, 5, 0, 194, 23, 252, 0, 0, 2, 0, 2, 1, 2, 3, 160, 0, 3,
+   0, 6, 0, 34, 66, 12, 0, 0, 0, 224, 0, 0, 0, 5, 93, 0, 34, 127, 252, 0, 0, 1, 0, 0, 7, 0]
+
+theorem exPayload_enc : Lzma2.encodeChunks 93 Lzma2.Example.exChunks (Lzma2.initW 4096 #[] 93) [] = some exPayload := by
+  decide +kernel
+
+/-- `lzma2_trunc` with every hypothesis discharged: no proper prefix of the 60 bytes is accepted, whatever the cap -/
+example (k : Nat) (hk : k < 60) (cap : Nat) (r : Lzma2.DecOk) :
+    Lzma2.decode 4096 #[] (exPayload.take k) cap ≠ .ok r :=
+  Lzma2.lzma2_trunc 4096 #[] 93 (by decide) (by decide) _ _ Lzma2.Example.exChunks_ok exPayload exPayload_enc k
+    (by simpa [exPayload] using hk) cap r
+
+/-- `xz_trunc_chunks` with EVERY hypothesis discharged and NO codec assumption: an XZ stream (SHA-256 check) whose
+    block payload is that LZMA2 stream; every proper prefix is rejected -/
+example (k : Nat) (hk : k < (streamBytes .sha256 [.lzma2 4096] [(exPayload, Lzma2.Example.exData)]).length) :
+    (∃ e, Xz.decode false ((streamBytes .sha256 [.lzma2 4096] [(exPayload, Lzma2.Example.exData)]).take k) 17 = .err e) ∨
+    Xz.decode false ((streamBytes .sha256 [.lzma2 4096] [(exPayload, Lzma2.Example.exData)]).take k) 17 = .capped := by
+  have hrd : readerDict [.lzma2 4096] = 4096 := by decide
+  refine xz_trunc_chunks .sha256 [.lzma2 4096] (by decide) _ ?_ ?_ 17 (by simp [Lzma2.Example.exData]) k hk
+  · intro b hb
+    rw [List.mem_singleton] at hb
+    subst hb
+    refine ⟨rfl, 93, Lzma2.Example.exChunks, by decide, by decide, ?_, ?_⟩
+    · rw [hrd]; exact Lzma2.Example.exChunks_ok
+    · rw [hrd]; exact exPayload_enc
+  · refine sizesOk_of_blocks _ _ _ ⟨by simp, ?_⟩ (by simp)
+    intro b hb
+    rw [List.mem_singleton] at hb
+    subst hb
+    rw [blockHeaderBytes_length]
+    simp only [List.map_cons, List.map_nil, encFilter, List.flatten_cons, List.flatten_nil, List.length_cons,
+      List.length_nil, List.length_append, Check.size, exPayload, Lzma2.Example.exData]
+    omega
+
+/-- the stream of the stored-chunk example above is 60 bytes long for `x < 256`… here: `x = 65` -/
 example : (streamBytes .crc64 [.lzma2 4096] [([1, 0, 0, 65, 0], [65])]).length = 60 := by decide +kernel
 
 def xzIsErr : Xz.Out → Bool
@@ -213,5 +289,13 @@ end LzmaVerif.Props.C05.Examples
 #print axioms LzmaVerif.Xz.xz_trunc_not_ok
 #print axioms LzmaVerif.Xz.xz_trunc_blocks
 #print axioms LzmaVerif.Xz.payloadTrunc_stored
+#print axioms LzmaVerif.Lzma2.chunkLoop_ext
+#print axioms LzmaVerif.Lzma2.decode_trunc
+#print axioms LzmaVerif.Lzma2.lzma2_trunc
+#print axioms LzmaVerif.Lzma2.payloadTrunc_of_chunksOk
+#print axioms LzmaVerif.Lzma2.payloadTrunc_of_payloadOk
+#print axioms LzmaVerif.Xz.xz_trunc_ok
+#print axioms LzmaVerif.Xz.xz_trunc_blocks_ok
+#print axioms LzmaVerif.Xz.xz_trunc_chunks
 #print axioms LzmaVerif.Props.C05.Examples.exLzma_decodes
 #print axioms LzmaVerif.Props.C05.Examples.exLzma_trunc
